@@ -555,11 +555,20 @@ func (p *c18Peer) sendInitialWindow(w int64) bool {
 	p.wPend = w
 	p.settingsChanges++
 	p.logf("send SETTINGS INITIAL_WINDOW_SIZE=%d (was %d)", w, p.wCur)
+	cur := p.wCur
 	p.mu.Unlock()
+	decoy := w
+	if cur < decoy {
+		decoy = cur
+	}
+	decoy /= 2
 	p.writeFrame(func() error {
 		if p.dupSettings() {
 			// the same identifier twice in one frame: settings are processed in the order they appear, the last value stands (RFC 7540 6.5.3)
-			return p.fr.WriteSettings(xh2.Setting{ID: xh2.SettingInitialWindowSize, Val: 65535}, xh2.Setting{ID: xh2.SettingInitialWindowSize, Val: uint32(w)})
+			// the decoy is BELOW both the value in force and the new one: processed in order, no stream window ever exceeds what either
+			// endpoint of the change allows (a decoy above them could push a window that WINDOW_UPDATEs have raised close to 2^31-1
+			// over the limit, which would be the peer's own flow-control error)
+			return p.fr.WriteSettings(xh2.Setting{ID: xh2.SettingInitialWindowSize, Val: uint32(decoy)}, xh2.Setting{ID: xh2.SettingInitialWindowSize, Val: uint32(w)})
 		}
 		return p.fr.WriteSettings(xh2.Setting{ID: xh2.SettingInitialWindowSize, Val: uint32(w)})
 	})
@@ -937,7 +946,11 @@ func (p *c18Peer) handshake() bool {
 	p.mu.Unlock()
 	err := p.writeFrame(func() error {
 		if p.dupSettings() {
-			return p.fr.WriteSettings(xh2.Setting{ID: xh2.SettingInitialWindowSize, Val: 1 << 20}, xh2.Setting{ID: xh2.SettingMaxFrameSize, Val: 1 << 20},
+			d0 := p.cs.W0
+			if d0 > 65535 {
+				d0 = 65535
+			}
+			return p.fr.WriteSettings(xh2.Setting{ID: xh2.SettingInitialWindowSize, Val: uint32(d0 / 2)}, xh2.Setting{ID: xh2.SettingMaxFrameSize, Val: 1 << 20},
 				xh2.Setting{ID: xh2.SettingInitialWindowSize, Val: uint32(p.cs.W0)}, xh2.Setting{ID: xh2.SettingMaxFrameSize, Val: p.cs.MaxFrame})
 		}
 		return p.fr.WriteSettings(xh2.Setting{ID: xh2.SettingInitialWindowSize, Val: uint32(p.cs.W0)}, xh2.Setting{ID: xh2.SettingMaxFrameSize, Val: p.cs.MaxFrame})
